@@ -1,6 +1,37 @@
-/-! Driver commands of the `Ctx` cluster.  `handle` returns `none` for commands that are not its own. -/
+import TbotVerif.Model.CtxWire
+/-! Driver commands of the `Ctx` cluster (C14, C15).  `handle` returns `none` for commands that are
+    not its own.
+      `ctx <case>`                  observation of the implementation model
+      `ctxref <case>`               observation of the reference model `RefCtx`
+      `spec C14|C15 <case> || <obs>`  the Spec evaluated on the given observation -/
 namespace Driver.Ctx
 
-def handle (_toks : List String) : Option String := none
+def splitAt2 (toks : List String) (sep : String) : List String × List String :=
+  (toks.takeWhile (· != sep), (toks.dropWhile (· != sep)).drop 1)
+
+def specOf (id : String) : Option (Ctx.Case → List Ctx.Ev → Bool) :=
+  match id with
+  | "C14" => some Spec.C14 | "C15" => some Spec.C15
+  | _ => none
+
+def handle (toks : List String) : Option String :=
+  match toks with
+  | "ctx" :: rest =>
+    some (match Ctx.Wire.case rest with
+    | some c => Ctx.Wire.obs (Ctx.run c)
+    | none => "bad-op")
+  | "ctxref" :: rest =>
+    some (match Ctx.Wire.case rest with
+    | some c => Ctx.Wire.obs (Ctx.Ref.run c)
+    | none => "bad-op")
+  | "spec" :: id :: rest =>
+    match specOf id with
+    | none => none
+    | some f =>
+      let (ct, ot) := splitAt2 rest "||"
+      some (match Ctx.Wire.case ct, Ctx.Wire.obsOf ot with
+      | some c, some o => if f c o then "1" else "0"
+      | _, _ => "bad-op")
+  | _ => none
 
 end Driver.Ctx
